@@ -18,13 +18,53 @@ type shutSpec struct {
 	LateWrite bool
 	Faults    faultSet
 	PauseRead time.Duration
+	// deterministic loss pattern: the first transmission of B's DATA with these TSN offsets
+	// (from B's initial TSN) is lost, and so are the first KillSacks packets from A that carry a
+	// SACK but no SHUTDOWN: the SHUTDOWN chunks then acknowledge B's data only partially.
+	KillBOff  []uint32
+	KillSacks int
 }
 
 func shutScenario(spec *shutSpec) *Scenario {
 	return &Scenario{
 		Name:    "shutdown",
 		Horizon: 900 * time.Second,
-		Setup:   func(m *Sim) { m.W.faults = spec.Faults },
+		Setup: func(m *Sim) {
+			m.W.faults = spec.Faults
+			if len(spec.KillBOff) > 0 || spec.KillSacks > 0 {
+				seen := map[uint32]bool{}
+				sacks := 0
+				m.W.killFn = func(p *wpkt) bool {
+					if p.dec == nil {
+						return false
+					}
+					kill := false
+					hasSack, hasShut := false, false
+					for _, c := range p.dec.Chunks {
+						switch c.Typ {
+						case wDATA, wIDATA:
+							if p.from == 1 {
+								for _, off := range spec.KillBOff {
+									if c.TSN == spec.B.InitTSN+off && !seen[c.TSN] {
+										seen[c.TSN] = true
+										kill = true
+									}
+								}
+							}
+						case wSACK:
+							hasSack = true
+						case wSHUTDOWN:
+							hasShut = true
+						}
+					}
+					if p.from == 0 && hasSack && !hasShut && sacks < spec.KillSacks {
+						sacks++
+						kill = true
+					}
+					return kill
+				}
+			}
+		},
 		Body: func(m *Sim) {
 			if !m.Connect(spec.A, spec.B) {
 				m.Failf("connect", "handshake failed: %v %v", m.Err[0], m.Err[1])
@@ -221,6 +261,26 @@ func propC08(j *Job) {
 						j.Explore(fmt.Sprintf("S/%s/m%d/x%d/bdata%v/late%v", mode.Name, len(sizes), crossed, bdata, late), shutScenario(spec), Budget{K: k}, nil)
 						if j.capped() {
 							return
+						}
+						if bdata && !late && crossed == 0 && si < 2 {
+							// the peer's data is acknowledged by SHUTDOWN chunks only, and partially
+							for _, ks := range []int{0, 2, 100000} {
+								for _, offs := range [][]uint32{{5, 6}, {4}, {1, 8}} {
+									if !j.Thorough() && (ks == 0 || len(offs) == 1) {
+										continue
+									}
+									ls := *spec
+									ls.KillBOff, ls.KillSacks = offs, ks
+									kk := 0
+									if j.Thorough() {
+										kk = 1
+									}
+									j.Explore(fmt.Sprintf("S/%s/m%d/partial-ack/sacks%d/off%v", mode.Name, len(sizes), ks, offs), shutScenario(&ls), Budget{K: kk}, nil)
+									if j.capped() {
+										return
+									}
+								}
+							}
 						}
 					}
 				}
